@@ -1,5 +1,5 @@
 //! Registry: which families of cases make up each check at each tier, and replay dispatch.
-use crate::alphabet::{Chars, Skeletons, Soup, Words, CONTEXTS, GAPS3, GAPS5, SIGMA, SIGMA_SMALL};
+use crate::alphabet::{Chars, Skeletons, Soup, Words, CONTEXTS, GAPS3, GAPS5, GAPS8, SIGMA, SIGMA_SMALL};
 use crate::cfg::{self, Cfg, C_QUICK};
 use crate::grammar::Grammar;
 use crate::oracles as o;
@@ -80,6 +80,9 @@ impl TextSource for LitTexts {
     fn get(&self, idx: u64, buf: &mut String) {
         *buf = self.0.build(idx).0;
     }
+}
+fn large_texts() -> Texts {
+    Texts { name: "large-inputs".into(), items: crate::alphabet::large_inputs() }
 }
 fn lit_texts(max_lines: usize) -> LitTexts {
     LitTexts(o3::C12Family { max_lines, cfgs: vec![cfg::DEFAULT], quotes: vec![3, 5], positions: vec![0, 4] })
@@ -265,12 +268,13 @@ impl Family for TextFamily {
 }
 
 fn tf(label: &str, src: impl TextSource + 'static, cfgs: &[Cfg], oracle: TextOracle) -> Box<dyn Family> {
+    let horizon_ms = if src.name().starts_with("large-inputs") { 120_000 } else { 1500 };
     Box::new(TextFamily {
         label: label.to_string(),
         src: Box::new(src),
         cfgs: cfgs.to_vec(),
         oracle,
-        horizon_ms: 1500,
+        horizon_ms,
     })
 }
 
@@ -864,6 +868,8 @@ pub fn families(check: &str, tier: &str) -> Vec<Box<dyn Family>> {
                     tf("c01", Chars { n: 3 }, &C_QUICK[..2], or_c01()),
                     prog_variants("c01", &g(1), 1, &C_QUICK[..2], vo_cd, f_c01),
                     tf("c01", lit_texts(2), &C_QUICK[..2], or_c01()),
+                    tf("c01", soup(2, GAPS8, &["%", "begin % end"]), &C_QUICK[..2], or_c01()),
+                    tf("c01", large_texts(), &C_QUICK[..2], or_c01()),
                 ]
             } else {
                 vec![
@@ -874,6 +880,8 @@ pub fn families(check: &str, tier: &str) -> Vec<Box<dyn Family>> {
                     seed_texts("c01", &all_seeds(), &full, f_c01),
                     tf("c01", lit_texts(2), &C_QUICK, or_c01()),
                     seed_mutations("c01", &all_seeds(), &C_QUICK[..2], f_c01),
+                    tf("c01", soup(2, GAPS8, CONTEXTS), &C_QUICK, or_c01()),
+                    tf("c01", large_texts(), &C_QUICK, or_c01()),
                 ]
             }
         }
@@ -922,6 +930,8 @@ pub fn families(check: &str, tier: &str) -> Vec<Box<dyn Family>> {
                     tf("c04", lit_texts(2), &C_QUICK[..2], or_c04()),
                     tf("c04", Chars { n: 3 }, &one, or_c04()),
                     seed_mutations("c04", &all_seeds(), &C_QUICK[1..2], f_c04),
+                    tf("c04", soup(2, GAPS8, &["%", "begin % end"]), &C_QUICK[..2], or_c04()),
+                    tf("c04", large_texts(), &C_QUICK[..2], or_c04()),
                     tf("c04passes", Skeletons { n: 6 }, &one, Box::new(|x, c, ctx| o::c04_passes(x, c, ctx))),
                     tf("c04cursors", soup(2, GAPS3, &["%", "begin % end"]), &one, or_c04_cursors()),
                     Box::new(ScalingFamily { sizes: vec![1, 2, 4, 8, 16, 32, 64], cfgs: vec![cfg::DEFAULT, C_QUICK[1]] }),
@@ -933,6 +943,9 @@ pub fn families(check: &str, tier: &str) -> Vec<Box<dyn Family>> {
                     tf("c04", Soup { k: 4, sigma: SIGMA_SMALL, gaps: &[" ", "\n"], contexts: &["%", "begin % end", "type T = class % end;"] }, &C_QUICK[..2], or_c04()),
                     tf("c04", lit_texts(3), &C_QUICK, or_c04()),
                     seed_mutations("c04", &all_seeds(), &C_QUICK, f_c04),
+                    tf("c04", soup(2, GAPS8, CONTEXTS), &C_QUICK[..3], or_c04()),
+                    tf("c04", large_texts(), &C_QUICK, or_c04()),
+                    tf("c04", Chars { n: 5 }, &one, or_c04()),
                     tf("c04passes", Skeletons { n: 8 }, &one, Box::new(|x, c, ctx| o::c04_passes(x, c, ctx))),
                     tf("c04cursors", soup(2, GAPS5, CONTEXTS), &C_QUICK[..2], or_c04_cursors()),
                     seed_texts("c04cursors", &all_seeds(), &C_QUICK[..2], |x, c, ctx| {
@@ -1073,6 +1086,8 @@ pub fn families(check: &str, tier: &str) -> Vec<Box<dyn Family>> {
                     prog_variants("c08eof", &g(2), 2, &C_QUICK, vo_base, f_c08_eof),
                     seed_texts("c08eof", &wf_seeds(), &C_QUICK, f_c08_eof),
                     tf("c08", lit_texts(2), &C_QUICK[..3], or_c08(false)),
+                    tf("c08", soup(2, GAPS8, &["%", "begin % end"]), &C_QUICK[..3], or_c08(false)),
+                    tf("c08", large_texts(), &C_QUICK[..2], or_c08(false)),
                 ]
             } else {
                 vec![
@@ -1083,6 +1098,8 @@ pub fn families(check: &str, tier: &str) -> Vec<Box<dyn Family>> {
                     prog_variants("c08eof", &g(3), 3, &C_QUICK[..2], vo_base, f_c08_eof),
                     seed_texts("c08eof", &wf_seeds(), &full, f_c08_eof),
                     tf("c08", lit_texts(2), &C_QUICK, or_c08(false)),
+                    tf("c08", soup(2, GAPS8, CONTEXTS), &C_QUICK, or_c08(false)),
+                    tf("c08", large_texts(), &C_QUICK, or_c08(false)),
                     seed_mutations("c08", &all_seeds(), &C_QUICK[..2], |x, c, ctx| { let out = ctx.fmt(c, x); o::c08(x, &out, c, &o::C08Opts { eof_clause: false }, ctx); }),
                 ]
             }
